@@ -422,6 +422,11 @@ class RemoteWorker(Worker, metaclass=RemoteWorkerMeta):
         except ConnectionClosedError:
             self._result = (False, None)
             logger.debug('Connection to the child has been closed before receiving the result')
+        except Exception:
+            # the result is there but cannot be recreated on this side (e.g., an exception whose class cannot be rebuilt
+            # from its arguments, a class which only exists in the main script of the parent)
+            self._result = (False, None)
+            logger.exception('Could not recreate the result sent by the child')
         else:
             self._user_state = recv_msg(self._socket, comment='data: user state')
             logger.debug('User state received')
@@ -612,6 +617,9 @@ class RemoteWorker(Worker, metaclass=RemoteWorkerMeta):
                 self._ctrl_comms.parent_end.send(None)
                 self._ctrl_thread_loc.join()
         finally:
+            if result is None:
+                # not even an error has been recorded: the worker is being left with something which is not an Exception
+                result = (False, sys.exc_info()[1])
             self._cleanup()
             logger.debug('Sending result')
             send_msg(self._socket, result, 'data: result')
